@@ -8,7 +8,7 @@ LEVEL = "proof"
 RULE = ("Lean (the models are tied to base.GetMethodT / base.GetClassMethodT by the `lookup` differential stream over generated method tables and inheritance graphs): on the model of GetMethodT/getParentMethodT over Go-map models of TFrame and ClassInheritanceMap (any graph, cycles included): a resolved definition always carries the asked method "
         "name and privacy flag and exists in the table; the class's own definition wins; a direct superclass's / included module's definition is found; nothing is resolved when no key of that name "
         "exists; explicit ancestors registered through AddParentNode come before the implicit Object ancestor for any number of them, so a superclass's override of an Object method wins "
-        "(`addparent` stream against base.AddParentNode); the protected-method check passes for the class itself, for a direct subclass whatever else the graph holds (cycles included), and for a descendant at ANY depth of a single-inheritance chain, and it accepts only real ancestors (isAncestor_sound: a true answer means the defining class is reachable through parent edges, for every graph, fuel and entered-set; protected_outsider_reported) (`ancestor` stream against isAncestorNode on generated graphs). End-to-end: generated hierarchies (superclass chains of depth 1-4, included and extended modules, class << self, initialize, private/protected/public sections, protected calls from descendants and outsiders, overrides of to_s/inspect, classes nested after a section, receiverless calls of module methods, the whole group inside a namespace) with calls whose "
+        "(`addparent` stream against base.AddParentNode); the protected-method check passes for the class itself, for a direct subclass whatever else the graph holds (cycles included), and for a descendant at ANY depth of a superclass chain (each class having the next as its first parent, other parents such as Object allowed), and it accepts only real ancestors (isAncestor_sound: a true answer means the defining class is reachable through parent edges, for every graph, fuel and entered-set; protected_outsider_reported) (`ancestor` stream against isAncestorNode on generated graphs). End-to-end: generated hierarchies (superclass chains of depth 1-4, included and extended modules, class << self, initialize, private/protected/public sections, protected calls from descendants and outsiders, overrides of to_s/inspect, classes nested after a section, receiverless calls of module methods, the whole group inside a namespace) with calls whose "
         "outcome (resolves / is reported on its row) is computed by a reference model of Ruby's rules; plus same-named classes at several lexical levels with an unqualified superclass inside nested modules "
         "(the innermost enclosing definition is the parent: C27's superclass_innermost, tied by the findns stream). Non-trivial = a hierarchy with at least one inherited call.")
 
